@@ -110,6 +110,36 @@ def registry():
     return _registry
 
 
+_bare = {}
+
+
+def bare_registry(kind):
+    """a configuration directory without launchers.py ("none": the documented default, the local host), or with a
+    launchers.py that describes hosts but whose function is not called find_launcher ("nofn")"""
+    if kind not in _bare:
+        from experimaestro.launcherfinder.registry import LauncherRegistry
+        d = Path(tempfile.mkdtemp(prefix="xpmverif-c18-conf-"))
+        try:
+            if kind == "nofn":
+                (d / "launchers.py").write_text(LAUNCHERS_PY.replace("def find_launcher(", "def find_launchers("))
+            _bare[kind] = LauncherRegistry(d)
+        finally:
+            shutil.rmtree(d, ignore_errors=True)
+        assert _bare[kind].find_launcher_fn is None
+    return _bare[kind]
+
+
+def run_bare(text):
+    out = {}
+    for kind in ("none", "nofn"):
+        try:
+            l = bare_registry(kind).find(text)
+            out[kind] = dict(launcher=None if l is None else type(l).__name__, exc=None)
+        except Exception as e:  # noqa
+            out[kind] = dict(launcher=None, exc=type(e).__name__)
+    return out
+
+
 def run_registry(c, reqs):
     """LauncherRegistry.find over the hosts of the case; the alternatives are handed over as the groups say:
     str = one string (its alternatives joined by |), obj = a simple requirement object, union = an object built with |"""
@@ -158,6 +188,9 @@ def run_case(c):
         except Exception as e:  # noqa
             out["near_parsed"] = None
             out["near_exc"] = type(e).__name__
+    # the same texts handed to a registry that has no find_launcher function to ask
+    out["bare"] = run_bare(c["text"])
+    out["bare_near"] = run_bare(nr["text"]) if nr is not None else None
     progs = [build_spec(ts) for ts in c["expr"]]
     out["prog"] = [canon(r) for r, _ in progs]
     out["pure"] = [p for _, p in progs]
